@@ -457,12 +457,21 @@ def dictionaryWord (copyLen wordId : Nat) : Except String ByteArray :=
 /-! ## Section 9.1: stream header -/
 
 /-- WBITS. -/
-def readWindowBits : M Nat := do
+def readWindowBits (strict : Bool) : M Nat := do
   if (← readBits 1) == 0 then return 16
   let n ← readBits 3
   if n != 0 then return 17 + n
   let n ← readBits 3
-  if n == 1 then fail "window_bits"          -- reserved by RFC 7932 (large-window Brotli)
+  if n == 1 then
+    -- reserved by RFC 7932; "large-window Brotli" in the crate, whose decoder (large window enabled by
+    -- default) then takes one more bit, which must be 0, and six bits of window size in 10..30.  The
+    -- compatible mode follows it that far (so that a stream cut inside this header is "needs more input",
+    -- as the crate says) and gives up on a well-formed large-window header: such streams are not decoded.
+    if strict then fail "window_bits"
+    if (← readBits 1) == 1 then fail "window_bits"
+    let w ← readBits 6
+    if w < 10 || 30 < w then fail "window_bits"
+    fail "large_window"
   if n != 0 then return 8 + n
   return 17
 
@@ -691,7 +700,7 @@ def decodeMetaBlock (cfg : Config) (wbits : Nat) : M Bool := do
 
 /-- Section 9: a whole stream. -/
 def decodeStream (cfg : Config) : M Unit := do
-  let wbits ← readWindowBits
+  let wbits ← readWindowBits cfg.strict
   let fuel := 8 * (← get).inp.size + 1
   for _ in [0:fuel] do
     if ← decodeMetaBlock cfg wbits then
